@@ -825,6 +825,11 @@ class ManifestRecursiveLoader:
                         else:
                             new_mpath = mpath[:-len(compr)-1]
 
+                        # NB: must be done before saving, so that
+                        # the renamed top-level Manifest is still signed
+                        if mpath == self.top_level_manifest_filename:
+                            self.top_level_manifest_filename = new_mpath
+
                         # do the rename!
                         self.loaded_manifests[new_mpath] = m
                         self.save_manifest(new_mpath)
@@ -832,9 +837,6 @@ class ManifestRecursiveLoader:
                         os.unlink(os.path.join(self.root_directory,
                                                mpath))
                         renamed_manifests[mpath] = new_mpath
-
-                        if mpath == self.top_level_manifest_filename:
-                            self.top_level_manifest_filename = new_mpath
 
         # now, discard all the Manifests whose entries we've updated
         self.updated_manifests -= fixed_manifests
